@@ -6,6 +6,7 @@
 
 use crate::stm_merkle_tree::{MerkleBatchPath, MerkleTree, MerkleTreeBatchCommitment, MerkleTreeLeaf};
 use blake2::{Blake2b, Digest, digest::consts::U32};
+use crate::c09_util::{Label, violation};
 use mc_core::{Report, catch};
 use serde_json::{Value, json};
 
@@ -163,18 +164,19 @@ pub fn false_statement(committed: &[BLeaf], case: &Case) -> Option<(&'static str
 }
 
 /// evaluate one case against a commitment; `label` says how the case was made
-pub fn eval_case(rep: &mut Report, w: &World, case: &Case, label: &str, count_distinct: bool) -> Verdict {
+pub fn eval_case<'a>(rep: &mut Report, w: &World, case: &Case, label: impl Into<Label<'a>>, count_distinct: bool) -> Verdict {
     eval_case_against(rep, &w.committed, &w.commitment, case, label, count_distinct)
 }
 
-pub fn eval_case_against(
+pub fn eval_case_against<'a>(
     rep: &mut Report,
     committed: &[BLeaf],
     commitment: &Commitment,
     case: &Case,
-    label: &str,
+    label: impl Into<Label<'a>>,
     count_distinct: bool,
 ) -> Verdict {
+    let label: Label = label.into();
     rep.eval();
     let v = run_verify(commitment, case);
     match v {
@@ -182,16 +184,17 @@ pub fn eval_case_against(
             rep.outcome("stm:accepted");
             rep.nontrivial(&("stm", committed, case));
             if let Some((key, why)) = false_statement(committed, case) {
-                rep.violation(
-                    key,
-                    format!(
-                        "STM batch path verified although it states something false about the committed list ({why}); case made by: {label}; committed = {:?}",
-                        committed.iter().map(|l| l.hex()).collect::<Vec<_>>()
-                    ),
-                    json!({"part": "stm", "committed": committed.iter().map(|l| l.hex()).collect::<Vec<_>>(), "case": case.to_json(), "made_by": label}),
-                );
-            } else if label != "honest" && rep.extras.get("stm_sample_accepted_mutant").is_none() {
-                rep.extra("stm_sample_accepted_mutant", json!({"made_by": label, "n": committed.len(), "case": case.to_json()}));
+                violation(rep, key, || {
+                    (
+                        format!(
+                            "STM batch path verified although it states something false about the committed list ({why}); case made by: {label}; committed = {:?}",
+                            committed.iter().map(|l| l.hex()).collect::<Vec<_>>()
+                        ),
+                        json!({"part": "stm", "committed": committed.iter().map(|l| l.hex()).collect::<Vec<_>>(), "case": case.to_json(), "made_by": label.to_string()}),
+                    )
+                });
+            } else if !label.is_honest() && rep.extras.get("stm_sample_accepted_mutant").is_none() {
+                rep.extra("stm_sample_accepted_mutant", json!({"made_by": label.to_string(), "n": committed.len(), "case": case.to_json()}));
             }
         }
         Verdict::Rejected => {
@@ -444,21 +447,24 @@ pub fn mutations(c: &Case, m: &Material) -> Vec<(String, Case)> {
 }
 
 /// all single (depth 1) or single and paired (depth 2) mutations of every honest proof of a tree of n leaves
-pub fn mutation_sweep(n: usize, mask: u32, depth: usize) -> Report {
+pub fn mutation_sweep(n: usize, mask: u32, depth: usize, chunk: usize, chunks: usize) -> Report {
     let mut rep = Report::new("exploration", "");
     let w = World::members(n);
     let m = material(&w);
     let idx = subset_indices(mask, n);
     let honest = honest_case(&w, &idx);
     let singles = mutations(&honest, &m);
-    rep.add_extra("stm_single_mutants", singles.len() as u64);
-    for (label, case) in &singles {
+    for (i, (label, case)) in singles.iter().enumerate() {
+        if i % chunks != chunk {
+            continue;
+        }
+        rep.add_extra("stm_single_mutants", 1);
         eval_case(&mut rep, &w, case, label, true);
         if depth >= 2 {
             let pairs = mutations(case, &m);
             rep.add_extra("stm_paired_mutants", pairs.len() as u64);
             for (label2, case2) in &pairs {
-                eval_case(&mut rep, &w, case2, &format!("{label} ; {label2}"), false);
+                eval_case(&mut rep, &w, case2, Label(label, label2), false);
             }
         }
     }
@@ -499,13 +505,17 @@ pub fn cross_commitment_sweep(n: usize) -> Report {
         for mask in 1u32..(1u32 << n) {
             let idx = subset_indices(mask, n);
             let case = honest_case(&a, &idx);
-            eval_case_against(&mut rep, &wb.committed, &wb.commitment, &case, &format!("honest proof of the list before: {what}"), true);
+            eval_case_against(&mut rep, &wb.committed, &wb.commitment, &case, Label("honest proof of the list before:", &what), true);
         }
     }
     rep
 }
 
 pub fn replay(rep: &mut Report, v: &Value) {
+    if v["part"] == "stm-large" {
+        rep.merge(large_size_sweep(v["n"].as_u64().unwrap_or(17) as usize, false));
+        return;
+    }
     if v["part"] == "stm-honest" {
         let n = v["n"].as_u64().unwrap_or(1) as usize;
         rep.merge(honest_sweep(n));
@@ -524,6 +534,10 @@ pub fn replay(rep: &mut Report, v: &Value) {
 /// tree): wherever the verifier's walk over heap indices wants a sibling that is not itself claimed,
 /// give the real node at that heap position, or the padding hash where the real tree has no node.
 /// This only walks heap indices (it hashes nothing): it is a generator of candidates, not the oracle.
+pub fn forger_range(n: usize) -> usize {
+    4 * n.next_power_of_two() + 2
+}
+
 pub fn forger_values(w: &World, virtual_nodes: &[(usize, Vec<u8>)], indices: &[usize]) -> Vec<Vec<u8>> {
     let z = H::digest([0u8]).to_vec();
     let p2 = w.n().next_power_of_two();
@@ -564,7 +578,7 @@ pub fn forger_values(w: &World, virtual_nodes: &[(usize, Vec<u8>)], indices: &[u
 
 /// every set of at most `max_claims` positions of the extended range (inside the tree, in the padding
 /// area, one level below the leaves), every assignment of alphabet leaves to them, with the forger's path
-pub fn forger_sweep(n: usize, max_claims: usize, node_like: bool) -> Report {
+pub fn forger_sweep(n: usize, max_claims: usize, node_like: bool, first: usize) -> Report {
     let mut rep = Report::new("exploration", "");
     let mut committed: Vec<BLeaf> = (0..n).map(member).collect();
     let mut virtual_nodes: Vec<(usize, Vec<u8>)> = vec![];
@@ -581,7 +595,7 @@ pub fn forger_sweep(n: usize, max_claims: usize, node_like: bool) -> Report {
         virtual_nodes.push((2 * heap + 2, H::digest(inner_b.as_slice()).to_vec()));
     }
     let w = World::new(committed);
-    let range = 4 * p2 + 2;
+    let range = forger_range(n);
     let mut sets: Vec<Vec<usize>> = vec![];
     fn rec(start: usize, range: usize, left: usize, cur: &mut Vec<usize>, out: &mut Vec<Vec<usize>>) {
         if !cur.is_empty() {
@@ -596,7 +610,10 @@ pub fn forger_sweep(n: usize, max_claims: usize, node_like: bool) -> Report {
             cur.pop();
         }
     }
-    rec(0, range, max_claims, &mut vec![], &mut sets);
+    if first < range {
+        // all position sets whose smallest position is `first`
+        rec(first + 1, range, max_claims - 1, &mut vec![first], &mut sets);
+    }
     for idx in sets {
         let values = forger_values(&w, &virtual_nodes, &idx);
         // per position: the committed leaf (if any), another member, an outsider, the padding preimage,
@@ -622,7 +639,7 @@ pub fn forger_sweep(n: usize, max_claims: usize, node_like: bool) -> Report {
         loop {
             let case = Case { leaves: choice.iter().enumerate().map(|(p, &c)| options[p][c]).collect(), indices: idx.clone(), values: values.clone() };
             let all_true = false_statement(&w.committed, &case).is_none();
-            let v = eval_case(&mut rep, &w, &case, if node_like { "forger's path, node-like committed leaf" } else { "forger's path" }, true);
+            let v = eval_case(&mut rep, &w, &case, if node_like { "forger's path, node-like committed leaf" } else { "forger's path" }, idx.len() <= 2);
             if all_true && v != Verdict::Accepted {
                 // the forger's path for true claims inside the tree is the honest path
                 rep.violation(
@@ -691,6 +708,76 @@ pub fn brute_force_single_claim(n: usize, index: usize) -> Report {
             }
             if p == len {
                 break;
+            }
+        }
+    }
+    rep
+}
+
+/// index subsets used for the larger, not exhaustively covered sizes: every singleton, every adjacent
+/// pair, every pair with the last leaf, evens, odds, both halves, everything
+pub fn selected_subsets(n: usize) -> Vec<Vec<usize>> {
+    let mut out: Vec<Vec<usize>> = vec![];
+    for i in 0..n {
+        out.push(vec![i]);
+        if i + 1 < n {
+            out.push(vec![i, i + 1]);
+            if i + 2 < n {
+                out.push(vec![i, n - 1]);
+            }
+        }
+    }
+    out.push((0..n).collect());
+    out.push((0..n).step_by(2).collect());
+    out.push((1..n).step_by(2).collect());
+    out.push((0..n / 2).collect());
+    out.push((n / 2..n).collect());
+    out.retain(|s| !s.is_empty());
+    out.sort();
+    out.dedup();
+    out
+}
+
+/// larger sizes: selected subsets, honest proof plus the single mutations of it
+pub fn large_size_sweep(n: usize, mutate: bool) -> Report {
+    let mut rep = Report::new("exploration", "");
+    let w = World::members(n);
+    let m = material(&w);
+    for idx in selected_subsets(n) {
+        let case = honest_case(&w, &idx);
+        let v = eval_case(&mut rep, &w, &case, "honest", true);
+        if v != Verdict::Accepted {
+            violation(&mut rep, "C09/stm-batch-path:honest-proof-rejected", || {
+                (format!("the batch path generated for n={n} indices={idx:?} does not verify ({v:?})"), json!({"part": "stm-large", "n": n}))
+            });
+        }
+        if mutate && idx.len() <= 2 {
+            for (label, c) in mutations(&case, &m) {
+                eval_case(&mut rep, &w, &c, &label, true);
+            }
+        }
+    }
+    // the forger's path for one or two claims around the end of the tree
+    let p2 = n.next_power_of_two();
+    let mut positions: Vec<usize> = vec![0, n - 1, n, n + 1, p2 - 1, p2, p2 + 1, 2 * p2 - 1, 2 * p2];
+    positions.sort();
+    positions.dedup();
+    for (a, &i) in positions.iter().enumerate() {
+        for &j in positions[a..].iter() {
+            let idx = if i == j { vec![i] } else { vec![i, j] };
+            let values = forger_values(&w, &[], &idx);
+            for leaf_choice in 0..3usize.pow(idx.len() as u32) {
+                let leaves: Vec<BLeaf> = idx
+                    .iter()
+                    .enumerate()
+                    .map(|(p, &pos)| match (leaf_choice / 3usize.pow(p as u32)) % 3 {
+                        0 => w.committed.get(pos).copied().unwrap_or_else(outsider),
+                        1 => padding_preimage(),
+                        _ => w.committed[(pos + 1) % n],
+                    })
+                    .collect();
+                let case = Case { leaves, indices: idx.clone(), values: values.clone() };
+                eval_case(&mut rep, &w, &case, "forger's path", true);
             }
         }
     }
